@@ -507,6 +507,20 @@ class Anchors:
         except Exception as ex:  # noqa
             self._fail(name, targets[0][0], "", what, ex)
 
+    def state(self, name, relpath, classes: dict, what):
+        """Structural anchor: each listed class stores exactly the listed attributes (no memo / per-call state anywhere else)."""
+        try:
+            src, tree = self.load(relpath)
+            diffs = []
+            for cname, allowed in classes.items():
+                got = assigned_state(tree, cname)
+                if got != set(allowed):
+                    diffs.append(f"{cname}: unexpected {sorted(got - set(allowed))}, missing {sorted(set(allowed) - got)}")
+            d = f"Definition {name} : bool := {'true' if not diffs else 'false'}."
+            self._record(name, relpath, ", ".join(classes), what, ("as listed" if not diffs else "; ".join(diffs))[:1500], d)
+        except Exception as ex:  # noqa
+            self._fail(name, relpath, ", ".join(classes), what, ex)
+
     def render(self, pid: str) -> str:
         head = ("(* GENERATED by /verif/harness/translate.py from the current /repo working tree.\n"
                 "   Do not edit: rewritten on every check run. *)\n"
@@ -585,3 +599,24 @@ def forwards(fn: ast.AST, callee_names: tuple, params: list, expected: dict) -> 
             if b.get(opt) not in accepted:
                 return False
     return True
+
+
+def assigned_state(tree: ast.AST, classname: str) -> set:
+    """names of everything a class stores: `self.x` assignment targets anywhere in its methods, plus class-level variables
+    (prefixed "class:"): the complete list of places where an object can keep state between calls"""
+    cls = [n for n in ast.walk(tree) if isinstance(n, ast.ClassDef) and n.name == classname]
+    if len(cls) != 1:
+        raise Untranslatable(f"class {classname} not found (or ambiguous)")
+    out = set()
+    for node in ast.walk(cls[0]):
+        tg = node.targets if isinstance(node, ast.Assign) else [node.target] if isinstance(node, (ast.AugAssign, ast.AnnAssign)) else []
+        for t in tg:
+            for x in ast.walk(t):
+                if isinstance(x, ast.Attribute) and isinstance(x.value, ast.Name) and x.value.id == "self":
+                    out.add(x.attr)
+    for st in cls[0].body:
+        tg = st.targets if isinstance(st, ast.Assign) else [st.target] if isinstance(st, ast.AnnAssign) and st.value is not None else []
+        for t in tg:
+            if isinstance(t, ast.Name):
+                out.add("class:" + t.id)
+    return out
